@@ -365,7 +365,7 @@ func (e *Exec) concLen(t *Term, what string) int {
 	if t.IsConst() {
 		return int(int64(t.val))
 	}
-	return e.concretize(t, 0, e.cfg.MaxConcretize, what)
+	return e.concretize(t, 0, 1<<24, what)
 }
 
 // strBytes returns the byte terms of a string (concrete length required).
